@@ -73,6 +73,26 @@ def _inherit_reweighted(result, operands):
     return result
 
 
+def _jack_chain(operands):
+    """Name and configurations of the chain the first observable among the operands lives on."""
+    first = next(entry for op in operands if op.dtype == object for entry in op.flat if isinstance(entry, (Obs, CObs)))
+    if isinstance(first, CObs):
+        first = first.real
+    name = first.names[0]
+    return name, first.idl[name]
+
+
+def _jack_export(entry, name, idl):
+    """Jackknife samples of one matrix entry. Plain numbers give constant samples, observables have to live on the chain name / idl."""
+    if isinstance(entry, CObs):
+        return _jack_export(entry.real, name, idl) + 1j * _jack_export(entry.imag, name, idl)
+    if isinstance(entry, Obs):
+        if entry.names != [name] or (entry.idl[name] != idl and list(entry.idl[name]) != list(idl)):
+            raise ValueError('The jackknife based matrix operations need all entries on the same replicum and configurations.')
+        return entry.export_jackknife()
+    return np.full(len(idl) + 1, entry)
+
+
 def jack_matmul(*operands):
     """Matrix multiply both operands making use of the jackknife approximation.
 
@@ -88,19 +108,13 @@ def jack_matmul(*operands):
     def _exp_to_jack(matrix):
         base_matrix = np.empty_like(matrix)
         for index, entry in np.ndenumerate(matrix):
-            base_matrix[index] = entry.export_jackknife()
+            base_matrix[index] = _jack_export(entry, name, idl)
         return base_matrix
 
     def _imp_from_jack(matrix, name, idl):
         base_matrix = np.empty_like(matrix)
         for index, entry in np.ndenumerate(matrix):
             base_matrix[index] = import_jackknife(entry, name, [idl])
-        return base_matrix
-
-    def _exp_to_jack_c(matrix):
-        base_matrix = np.empty_like(matrix)
-        for index, entry in np.ndenumerate(matrix):
-            base_matrix[index] = entry.real.export_jackknife() + 1j * entry.imag.export_jackknife()
         return base_matrix
 
     def _imp_from_jack_c(matrix, name, idl):
@@ -110,32 +124,17 @@ def jack_matmul(*operands):
                                       import_jackknife(entry.imag, name, [idl]))
         return base_matrix
 
-    if any(isinstance(o.flat[0], CObs) or (o.dtype != object and np.iscomplexobj(o)) for o in operands):
-        first = [o.flat[0] for o in operands if isinstance(o.flat[0], (Obs, CObs))][0]
-        if isinstance(first, CObs):
-            first = first.real
-        name = first.names[0]
-        idl = first.idl[name]
+    name, idl = _jack_chain(operands)
 
-        r = None
-        for op in operands:
-            if isinstance(op.flat[0], CObs):
-                op = _exp_to_jack_c(op)
-            elif isinstance(op.flat[0], Obs):
-                op = _exp_to_jack(op)
-            r = op if r is None else r @ op
+    r = None
+    for op in operands:
+        if op.dtype == object:
+            op = _exp_to_jack(op)
+        r = op if r is None else r @ op
+
+    if any(np.iscomplexobj(entry) for entry in r.flat):
         return _inherit_reweighted(_imp_from_jack_c(r, name, idl), operands)
-    else:
-        first = [o.flat[0] for o in operands if isinstance(o.flat[0], Obs)][0]
-        name = first.names[0]
-        idl = first.idl[name]
-
-        r = None
-        for op in operands:
-            if isinstance(op.flat[0], Obs):
-                op = _exp_to_jack(op)
-            r = op if r is None else r @ op
-        return _inherit_reweighted(_imp_from_jack(r, name, idl), operands)
+    return _inherit_reweighted(_imp_from_jack(r, name, idl), operands)
 
 
 def einsum(subscripts, *operands):
@@ -151,15 +150,7 @@ def einsum(subscripts, *operands):
     """
 
     def _exp_to_jack(matrix):
-        base_matrix = []
-        for index, entry in np.ndenumerate(matrix):
-            base_matrix.append(entry.export_jackknife())
-        return np.asarray(base_matrix).reshape(matrix.shape + base_matrix[0].shape)
-
-    def _exp_to_jack_c(matrix):
-        base_matrix = []
-        for index, entry in np.ndenumerate(matrix):
-            base_matrix.append(entry.real.export_jackknife() + 1j * entry.imag.export_jackknife())
+        base_matrix = [_jack_export(entry, name, idl) for index, entry in np.ndenumerate(matrix)]
         return np.asarray(base_matrix).reshape(matrix.shape + base_matrix[0].shape)
 
     def _imp_from_jack(matrix, name, idl):
@@ -175,21 +166,11 @@ def einsum(subscripts, *operands):
                                       import_jackknife(matrix[index].imag, name, [idl]))
         return base_matrix
 
-    for op in operands:
-        if isinstance(op.flat[0], CObs):
-            name = op.flat[0].real.names[0]
-            idl = op.flat[0].real.idl[name]
-            break
-        elif isinstance(op.flat[0], Obs):
-            name = op.flat[0].names[0]
-            idl = op.flat[0].idl[name]
-            break
+    name, idl = _jack_chain(operands)
 
     conv_operands = []
     for op in operands:
-        if isinstance(op.flat[0], CObs):
-            conv_operands.append(_exp_to_jack_c(op))
-        elif isinstance(op.flat[0], Obs):
+        if op.dtype == object:
             conv_operands.append(_exp_to_jack(op))
         else:
             conv_operands.append(op)
